@@ -4,13 +4,15 @@ From stdpp Require Import strings gmap sets.
 From CG Require Import Base.Cases Base.Oracle Model.Supergates Proofs.SupergatesProofs Proofs.SupergatesDom Proofs.SupergatesCoverFull.
 Open Scope string_scope.
 
-(* The property as a statement about the model (DESIGN.md appendix C) under the bare hypotheses of the design sketch.
-   PROVED below as C17_model_correct under wf_lim (closed, acyclic by a rank function, <= 2 operands, constants and inputs
-   undriven, gates driven -- what lint-cleanness and limit_fanin(.., 2) give): shape, independence, cover (any number of
-   outputs) and the order of the model's list.  The implementation's own list order is judged per run by check_topo. *)
+(* Hypotheses on the fan-in-limited circuit: what lint-cleanness, acyclicity and limit_fanin(.., 2) give. *)
+Definition wf_lim (L : circuit) : Prop :=
+  closed L ∧ acyclic L ∧
+  ∀ n i, L !! n = Some i → size (n_fi i) ≤ 2 ∧ (is_const (n_ty i) = true → n_fi i = ∅) ∧
+                           (n_ty i ≠ Input → is_const (n_ty i) = false → n_fi i ≠ ∅) ∧ (n_ty i = Input → n_fi i = ∅).
+(* The property as a statement about the model (DESIGN.md appendix C): PROVED below as C17_model_correct. *)
+Definition C17_full : Prop := ∀ L sgs, wf_lim L → supergates L = Ok sgs → sg_spec L sgs.
 Definition wf2 (L : circuit) : Prop :=
   closed L ∧ (∀ n i, L !! n = Some i → size (n_fi i) ≤ 2 ∧ is_bb (n_ty i) = false) ∧ ¬ has_cycle L.
-Definition C17_full : Prop := ∀ L sgs, wf2 L → supergates L = Ok sgs → sg_spec L sgs.
 (* "returns a list for every circuit" is false for the code as it is (finding C17-F2): two output cones can be decomposed
    inconsistently, the dependency graph of the minimal cover is cyclic and networkx.topological_sort raises *)
 Definition C17_total_full : Prop := ∀ L, wf2 L → ∃ sgs, supergates L = Ok sgs.
@@ -54,7 +56,7 @@ Proof. intros sgs H. apply bool_decide_eq_true, topo_ok_complete, H. Qed.
 Print Assumptions C17_check_topo_complete.
 
 (* ---- proved about the construction (mirrored model), every circuit: part of the shape clause ----
-   missing for C17_full: fan-in EQUALITY (no operand of a gate is cut off), cover, independence, order of the returned list;
+   without hypotheses on L; the full clauses need wf_lim (C17_shape, C17_independence, C17_cover_full below);
    'exactly one output' holds because the model has no value (BadOrder) where the Python result would depend on set order by id *)
 Theorem C17_construction_partial : ∀ L sgs, supergates L = Ok sgs →
   Forall (λ sg, c_bbs sg = ∅ ∧ size (outputs (c_g sg)) = 1 ∧
@@ -69,10 +71,6 @@ Print Assumptions C17_construction_partial.
 (* ---- the shape clause in full for the model: gates keep their WHOLE fan-in (a grown supergate is closed under fan-in
    except at its inputs).  Dominator-tree argument over least closed sets: an operand of a gate is a tree child or a tree
    sibling of the gate; with at most two operands a gate that does not dominate one of its operands has at most one tree child. ---- *)
-Definition wf_lim (L : circuit) : Prop :=
-  closed L ∧ acyclic L ∧
-  ∀ n i, L !! n = Some i → size (n_fi i) ≤ 2 ∧ (is_const (n_ty i) = true → n_fi i = ∅) ∧
-                           (n_ty i ≠ Input → is_const (n_ty i) = false → n_fi i ≠ ∅) ∧ (n_ty i = Input → n_fi i = ∅).
 Theorem C17_shape : ∀ L sgs, wf_lim L → supergates L = Ok sgs →
   Forall (λ sg, size (outputs (c_g sg)) = 1 ∧
                 ∀ n, n ∈ gates (c_g sg) → n_ty <$> c_g sg !! n = n_ty <$> L !! n ∧ fanin (c_g sg) n = fanin L n) sgs.
@@ -155,7 +153,7 @@ Print Assumptions C17_single_output.
 
 (* ---- the whole property for the mirrored model, any number of outputs: whenever the model returns a list, the list
    satisfies all four clauses (that it does not always return one is finding C17-F2, C17_total_refuted) ---- *)
-Theorem C17_model_correct : ∀ L sgs, wf_lim L → supergates L = Ok sgs → sg_spec L sgs.
+Theorem C17_model_correct : C17_full.
 Proof.
   intros L sgs Hwf H. split; [|split].
   - pose proof (C17_shape L sgs Hwf H) as H1. pose proof (C17_independence L sgs Hwf H) as H2.
@@ -164,6 +162,29 @@ Proof.
   - exact (C17_model_order_partial L sgs H).
 Qed.
 Print Assumptions C17_model_correct.
+
+(* ---- the hypotheses are decided per run on the recorded limited circuit (Run_C17.holds), and the clauses that do not
+   mention list positions transfer from the model's list to any list with the same members: so a run on which the
+   correspondence holds (`agree`: same set) inherits shape, independence and cover from the theorem ---- *)
+Theorem C17_wf_limb_sound : ∀ L, wf_limb L = true → wf_lim L.
+Proof.
+  intros L H. unfold wf_limb in H. apply bool_decide_eq_true in H. split; [|split].
+  - intros n i f Hi Hf. destruct (H n i Hi) as (Hsub & _). by apply Hsub.
+  - exists (λ n, default 0 (rank_cert L !! n)). intros n i f Hi Hf. destruct (H n i Hi) as (_ & Hr & _). by apply Hr.
+  - intros n i Hi. destruct (H n i Hi) as (_ & _ & ? & ? & ? & ?). done.
+Qed.
+Print Assumptions C17_wf_limb_sound.
+Theorem C17_agreement_transfers : ∀ L m r, wf_limb L = true → supergates L = Ok m → (∀ sg, sg ∈ m ↔ sg ∈ r) →
+  Forall (λ sg, size (outputs (c_g sg)) = 1 ∧
+                (∀ n, n ∈ gates (c_g sg) → n_ty <$> c_g sg !! n = n_ty <$> L !! n ∧ fanin (c_g sg) n = fanin L n) ∧
+                (∀ a b x, a ∈ inputs (c_g sg) → b ∈ inputs (c_g sg) → a ≠ b → reach L x a → reach L x b → False)) r ∧
+  (∀ n o, o ∈ outputs L → reach L n o → n ∉ inputs L → ∃ sg, sg ∈ r ∧ n ∈ gates (c_g sg)).
+Proof.
+  intros L m r Hwf Hm Hsame. destruct (C17_model_correct L m (C17_wf_limb_sound L Hwf) Hm) as (H1 & H2 & _). split.
+  - rewrite Forall_forall in H1 |- *. intros sg Hsg. apply H1. by apply Hsame.
+  - intros n o Ho Hr Hn. destruct (H2 n o Ho Hr Hn) as (sg & Hsg & Hg). exists sg. split; [by apply Hsame|done].
+Qed.
+Print Assumptions C17_agreement_transfers.
 
 (* ---- witnesses ---- *)
 (* x = and(a,b), y = or(c,d), g = and(x,y), o1 = not(g), o2 = buf(g): five supergates, the shared one found in both cones *)
